@@ -15,7 +15,11 @@ crash, replaced peer, restart + reconnect; the list of a reliable send is the CU
 membership; Settle / readiness) is model-checked (MC_GossipPeers*.cfg; the cached send list
 and the stuck settle timeout must fail) and its TLC-generated schedules are replayed on
 2-6 REAL cluster.Peers (cluster.Create, memberlist on 127.0.0.1) by harness/peer through
-checks/peercommon.py, with control evidence for every "not delivered" verdict."""
+checks/peercommon.py, with control evidence for every "not delivered" verdict.  Transport
+dimension: the schedules run over the default transport (UDP packets) and over the TLS gossip
+transport (cluster.tls-config: pooled connections; a failed write invalidates the connection and
+the next packet redials - the "never redial" variant must fail in TLC), with the fault "reset of
+the established connections towards a running member"."""
 import json, os, re, hashlib, concurrent.futures
 from lib import vlib
 from lib.vlib import log
@@ -249,7 +253,8 @@ def run(tier, v):
                   "Gen: %d distinct simulated schedules of 60 steps, 2/3/4 nodes, 11 updates with marshalled part sizes 700/701/708/709 around the limit, oversize queue "
                   "capacity 200 (bursts of 199..205), <=4 lost and <=3 duplicated packets, <=2 crashes, <=5 injections per schedule. "
                   "GossipPeers MC: 3 identities (2 initial + 1 spare) x 2 oversized / 1 small + 1 oversized updates, 1 stop, 1 join or restart; "
-                  "readiness 3 identities, settle budgets 0 / 6 polls; thorough 4 identities. Real peers: %d schedules, part sizes "
+                  "readiness 3 identities, settle budgets 0 / 6 polls; TLS transport 2 identities x 2 small updates, 2 resets, 1 stop, 1 restart; "
+                  "thorough 4 identities. Real peers: %d schedules, part sizes "
                   "150 / 420 / 700 (gossiped) and 701 / 709 / 1500 / 3100 (reliable)" % (total, peer_cov["schedules_replayed"]),
     }
     return "model_checking", cov, [
